@@ -456,6 +456,22 @@ def r4(ctx):
         ok = ok and key in want
   ok = ok and n_lk >= 1
   ctx.ob('C20.R4', p, 'handler selected by the scheme', ok, 'lookup is %s' % [U(c) for c in lk], whyu)
+  # the parse result is rebuilt only when the path really holds a '#': otherwise the fragment urlparse found (python 3 always splits it off) is what the handler gets
+  n_rb = 0
+  ok_rb = True
+  for ev, ex in enum_paths(ctx, p):
+    hc = [i for i, e in enumerate(ev) if e.kind == 'ret' and isinstance(e.node.value, ast.Call) and len(e.node.value.args) == 1 and isinstance(e.node.value.args[0], ast.Name)]
+    if not hc:
+      continue
+    n_rb += 1
+    pn = ev[hc[-1]].node.value.args[0].id
+    rebuilt = [i for i, e in enumerate(ev[:hc[-1]]) if e.kind == 'stmt' and isinstance(e.node, ast.Assign) and any(U(t) == pn for t in e.node.targets)
+               and not (isinstance(e.node.value, ast.Call) and call_name(e.node.value) == 'urlparse')]
+    for i in rebuilt:
+      fs_ = [c.replace('"', "'") for c, t in FACTS(ev[:i]) if t]
+      ok_rb = ok_rb and ("'#'in%s.path" % pn) in fs_
+  ctx.ob('C20.R4', p, "the parse result is rebuilt only under '#' in path", ok_rb and n_rb >= 1,
+         "a path rebuilds the parse result (path / fragment) without having found a '#' in the path: the fragment that urlparse already split off is overwritten (zk://hosts/path#name loses its endpoint name)", whyu)
   # fragment workaround keeps every other component
   pr = [c for c in walk_no_nested(p.node) if isinstance(c, ast.Call) and U(c.func) == 'ParseResult']
   if pr:
